@@ -82,7 +82,10 @@ namespace photon
             ctrl.cvar.notify_all();
         } else if (ctrl.joinable) {
             ctrl.joining = true;
-            ctrl.cvar.wait(ctrl.m_mtx);
+            // the joiner clears `joining` when it arrives; anything else that
+            // wakes this thread (an interrupt) must not be taken for it
+            do ctrl.cvar.wait(ctrl.m_mtx);
+            while (ctrl.joining);
         }
         ctrl.joinable = false;
         ctrl.joining = false;
@@ -120,10 +123,14 @@ namespace photon
 
         auto ret = !pCtrl->joining;
         if (pCtrl->joining) {
+            pCtrl->joining = false;     // the worker waits for exactly this
             pCtrl->cvar.notify_one();
         } else {
             pCtrl->joining = true;
-            pCtrl->cvar.wait(pCtrl->m_mtx);
+            // the worker clears `joining` when its work is done; an interrupt
+            // of the joiner must not end the join (and recycle a running thread)
+            do pCtrl->cvar.wait(pCtrl->m_mtx);
+            while (pCtrl->joining);
         }
         return ret;
     }
